@@ -13,14 +13,14 @@ import (
 // Val is a SQL value of the generated subset: NULL, INTEGER, VARCHAR, BLOB
 // ('?' = something the harness did not expect to read back).
 type Val struct {
-	K byte // 0 NULL, 'i', 's', 'b', '?'
+	K byte // 0 NULL, 'i', 's', 'b', '?'; 'r' = integer bound when the transaction starts: (largest live key of the table) + I
 	I int64
 	S string
 }
 
-func vNull() Val       { return Val{} }
-func vInt(i int64) Val { return Val{K: 'i', I: i} }
-func vStr(s string) Val { return Val{K: 's', S: s} }
+func vNull() Val         { return Val{} }
+func vInt(i int64) Val   { return Val{K: 'i', I: i} }
+func vStr(s string) Val  { return Val{K: 's', S: s} }
 func vBlob(s string) Val { return Val{K: 'b', S: s} }
 
 func (v Val) IsNull() bool { return v.K == 0 }
@@ -35,6 +35,8 @@ func (v Val) Lit() string {
 		return "'" + v.S + "'"
 	case 'b':
 		return "x'" + strings.ToUpper(hex.EncodeToString([]byte(v.S))) + "'"
+	case 'r':
+		return fmt.Sprintf("<max key + %d>", v.I)
 	}
 	return "?"
 }
@@ -355,6 +357,7 @@ type TxPlan struct {
 	Mode      string // auto | implicit | block | steps
 	Stmts     []*Stmt
 	Rollback  bool
+	Mix       bool // explicit and generated keys of one auto-increment table inside this transaction
 }
 
 func (p *TxPlan) Text() string {
